@@ -341,6 +341,23 @@ func vcWaitPoint(mark uint64, point int, obj uintptr, d time.Duration) bool {
 	}
 }
 
+// vcWaitFlushParked waits until a Flush of connection obj is parked in waitFlush: with or without a
+// write timer (a server-level WriteTimeout switches to the timer path, which has its own hook).
+func vcWaitFlushParked(mark uint64, obj uintptr, d time.Duration) bool {
+	deadline := time.Now().Add(d)
+	for {
+		for _, e := range vcTraceSince(mark) {
+			if (int(e.Point) == vpWaitFlushBeforeBlock || int(e.Point) == vpWaitFlushBeforeSelect) && e.Obj == obj {
+				return true
+			}
+		}
+		if time.Now().After(deadline) {
+			return false
+		}
+		time.Sleep(50 * time.Microsecond)
+	}
+}
+
 // vcSeenSince: the trace since mark holds an event (point, obj).
 func vcSeenSince(mark uint64, point int, obj uintptr) bool {
 	for _, e := range vcTraceSince(mark) {
